@@ -1,6 +1,7 @@
 (* C13 -- pinned property theorems (nothing else lives here) *)
 From Coq Require Import ZArith NArith QArith List Bool.
 From V Require Import Base.Term C13.Model C13.Proofs.
+From V Require Import C18.Model C18.Proofs C33.Proofs C20.Model C20.Proofs C13.Repr C13.ReprProofs.
 Import ListNotations.
 
 (* compare(=, T, T) for every term (variables, numbers of every representation, atoms, compounds) *)
@@ -74,4 +75,93 @@ Example ex_categories :
      (Flt 4607182418800017408, Int 1); (Rat 1 3, Int 1); (Int 0, Rat 1 3); (Flt two63, Flt 0); (Flt (two63 + 1), Flt 0);
      (Cmp [122%N] [Int 1], Cmp [97%N] [Int 1; Int 1]); (tstring [97%N; 98%N], tlist [Atom [97%N]; Atom [98%N]])]
   = [Lt; Lt; Lt; Lt; Lt; Lt; Lt; Eq; Lt; Lt; Eq].
+Proof. vm_compute. reflexivity. Qed.
+
+(* ------------------------------------------------------------------------------------------------------------
+   Representation level (Repr.v): rterm = what the heap cells of a term look like to ParallelHeapIter (Lis cons cells,
+   PStrLoc segments of UTF-8 bytes with a tail cell, Str structures, atoms, numbers, variables); denote : rterm -> term;
+   rcompare = the loop of compare_term_test over the arms of ParallelHeapIter::next (order_category dispatch, one arm
+   per pair of {Lis, PStrLoc, Str}, compare_pstr_slices for string/string, last_str_char_and_tail for string/cons). *)
+
+(* THE GOAL, partial: the mirror of the code computes the reference order of the denoted terms for every pair of
+   well-formed representations -- strings, partial strings, cons cells and any mixture are ordered as the lists they
+   denote -- PROVIDED the left operand contains no '.'/2 held as a Str cell.  What is missing is exactly the
+   Str-'.'/2 against Lis arm (see rcompare_str_dot_against_lis_deviates); no construction path observed builds such a
+   cell (reader, =.., functor/3, copy_term/2, assertz/1, findall/3 all build Lis). *)
+Theorem rcompare_is_tcompare_partial : forall a b, rwfb a = true -> rwfb b = true -> nodotb a = true ->
+  rcompare a b = tcompare (denote a) (denote b).
+Proof. exact ReprProofs.rcompare_is_tcompare_partial. Qed.
+Print Assumptions rcompare_is_tcompare_partial.
+
+(* the same loop with that one arm visiting the head pair before the tail pair: EVERY pair of well-formed representations *)
+Theorem rcompare_heads_first_is_tcompare : forall a b, rwfb a = true -> rwfb b = true ->
+  rcompare_heads_first a b = tcompare (denote a) (denote b).
+Proof. exact ReprProofs.rcompare_heads_first_is_tcompare. Qed.
+Print Assumptions rcompare_heads_first_is_tcompare.
+
+(* the arm as written (tail pair popped first) is not the standard order: '.'(a,[z]) as a Str cell against the cons
+   cells of [b,a] gives > in both directions, the order says < *)
+Theorem rcompare_str_dot_against_lis_deviates :
+  rwfb ex_dot_str = true /\ rwfb ex_dot_lis = true /\
+  rcompare ex_dot_str ex_dot_lis = Gt /\ tcompare (denote ex_dot_str) (denote ex_dot_lis) = Lt /\
+  rcompare ex_dot_lis ex_dot_str = Gt.
+Proof. exact ReprProofs.rcompare_str_dot_against_lis_deviates. Qed.
+Print Assumptions rcompare_str_dot_against_lis_deviates.
+
+(* all representations of one term compare equal *)
+Theorem rcompare_same_denotation : forall a b, rwfb a = true -> rwfb b = true -> nodotb a = true ->
+  denote a = denote b -> rcompare a b = Eq.
+Proof. exact ReprProofs.rcompare_same_denotation. Qed.
+Print Assumptions rcompare_same_denotation.
+
+(* C20's mirror of compare_pstr_slices on two segments in memory (any alignment, any bytes after the zero bytes):
+   Less/Greater exactly at a first differing byte; otherwise it reports which segment ended (TailIndex) and
+   PStrOffset(p) leaves exactly the unconsumed rest of the other one *)
+Theorem compare_pstr_slices_continuations : forall a1 a2 s1 s2 r1 r2, nul_free s1 = true -> nul_free s2 = true ->
+  seg_result (cmp_slices a1 a2 (s1 ++ 0%N :: r1) (s2 ++ 0%N :: r2)) s1 s2 = Some (lcmp3 s1 s2).
+Proof. exact ReprProofs.cmp_slices_cmp3. Qed.
+Print Assumptions compare_pstr_slices_continuations.
+
+(* UTF-8 byte-lexicographic three-way comparison (with remainders) = the code-point one: the bytes left over are the
+   encoding of the characters left over *)
+Theorem utf8_preserves_order_with_rests : forall cs1 cs2, lcmp3 (utf8 cs1) (utf8 cs2) = map3 utf8 (lcmp3 cs1 cs2).
+Proof. exact ReprProofs.lcmp3_utf8. Qed.
+Print Assumptions utf8_preserves_order_with_rests.
+
+(* Ord for Atom (byte order of the UTF-8 texts) is the code-point order of the reference *)
+Theorem atom_byte_order_is_codepoint_order : forall s s', atom_cmp s s' = name_compare s s'.
+Proof. exact ReprProofs.atom_cmp_name. Qed.
+Print Assumptions atom_byte_order_is_codepoint_order.
+
+(* last_str_char_and_tail: peeling a character off a segment *)
+Theorem peel_char : forall c cs tl, scalar c ->
+  peel (utf8 (c :: cs)) tl = (c, match cs with [] => tl | _ => RPStr (utf8 cs) tl end).
+Proof. exact ReprProofs.peel_utf8. Qed.
+Print Assumptions peel_char.
+
+(* the representation-level correspondence test: when it accepts, the representations denote the case's terms and
+   the observed answers are the mirror's answers, which are the reference's *)
+Theorem rcheck3_sound : forall t1 t2 t3 r1 r2 r3 obs, rcheck3 t1 t2 t3 r1 r2 r3 obs = true ->
+  denote r1 = t1 /\ denote r2 = t2 /\ denote r3 = t3 /\ obs = rspec3 r1 r2 r3 /\ rspec3 r1 r2 r3 = spec3 t1 t2 t3.
+Proof. exact ReprProofs.rcheck3_sound. Qed.
+Print Assumptions rcheck3_sound.
+
+(* non-vacuity: "aé😀" as one segment, as a segment continued by cons cells into a second segment, as cons cells,
+   and as '.'/2 Str cells (right operand only); an open partial string *)
+Definition ex_seg : rterm := RPStr [97; 195; 169; 240; 159; 152; 128]%N (RAtom nil_name).
+Definition ex_mixed : rterm := RPStr [97]%N (RLis (RAtom [233%N]) (RPStr [240; 159; 152; 128]%N (RAtom nil_name))).
+Definition ex_cells : rterm := RLis (RAtom [97%N]) (RLis (RAtom [233%N]) (RLis (RAtom [128512%N]) (RAtom nil_name))).
+Definition ex_strs : rterm := RStr dot [RAtom [97%N]; RStr dot [RAtom [233%N]; RStr dot [RAtom [128512%N]; RAtom nil_name]]].
+Definition ex_open : rterm := RPStr [97; 195; 169]%N (RVar 5).
+Example ex_repr_wf :
+  map rwfb [ex_seg; ex_mixed; ex_cells; ex_strs; ex_open] = [true; true; true; true; true] /\
+  map nodotb [ex_seg; ex_mixed; ex_cells; ex_strs; ex_open] = [true; true; true; false; true] /\
+  map denote [ex_seg; ex_mixed; ex_cells; ex_strs] = repeat (tstring [97; 233; 128512]%N) 4.
+Proof. vm_compute. repeat split; reflexivity. Qed.
+Example ex_repr_compare :
+  [rcompare ex_seg ex_mixed; rcompare ex_mixed ex_seg; rcompare ex_seg ex_cells; rcompare ex_cells ex_mixed; rcompare ex_seg ex_strs;
+   rcompare ex_mixed ex_strs; rcompare ex_cells ex_strs; rcompare ex_open ex_seg; rcompare ex_seg ex_open;
+   rcompare (RPStr [97; 98]%N (RAtom nil_name)) (RPStr [97; 98; 99]%N (RAtom nil_name));
+   rcompare (RPStr [97; 195; 170]%N (RAtom nil_name)) ex_seg]
+  = [Eq; Eq; Eq; Eq; Eq; Eq; Eq; Lt; Gt; Lt; Gt].
 Proof. vm_compute. reflexivity. Qed.
